@@ -62,6 +62,35 @@ theorem index_monotone (cfg : Cfg) (S out : List Instr) (h : transpile cfg S = .
   subst ha; subst hb
   exact tposS_mono cs hij
 
+/-- the program of seeded change C08_1: a counted loop whose head — the branch target — is a
+carbon–carbon CNOT (position 9), preceded by `h Q0; add; add` -/
+def loopHeadCC : List Instr := [
+  ⟨"core.SetInstruction", [.reg ⟨0, 0⟩, .imm 0]⟩, ⟨"core.SetInstruction", [.reg ⟨0, 1⟩, .imm 1]⟩,
+  ⟨"core.SetInstruction", [.reg ⟨0, 2⟩, .imm 3]⟩, ⟨"core.SetInstruction", [.reg ⟨0, 5⟩, .imm 0]⟩,
+  ⟨"core.SetInstruction", [.reg ⟨2, 0⟩, .imm 1]⟩, ⟨"core.SetInstruction", [.reg ⟨2, 1⟩, .imm 2]⟩,
+  ⟨"vanilla.GateHInstruction", [.reg ⟨2, 0⟩]⟩,
+  ⟨"core.AddInstruction", [.reg ⟨0, 5⟩, .reg ⟨0, 5⟩, .reg ⟨0, 2⟩]⟩,
+  ⟨"core.AddInstruction", [.reg ⟨0, 5⟩, .reg ⟨0, 5⟩, .reg ⟨0, 2⟩]⟩,
+  ⟨"vanilla.CnotInstruction", [.reg ⟨2, 0⟩, .reg ⟨2, 1⟩]⟩,
+  ⟨"vanilla.GateTInstruction", [.reg ⟨2, 1⟩]⟩,
+  ⟨"core.AddInstruction", [.reg ⟨0, 0⟩, .reg ⟨0, 0⟩, .reg ⟨0, 1⟩]⟩,
+  ⟨"core.BltInstruction", [.reg ⟨0, 0⟩, .reg ⟨0, 2⟩, .imm 9]⟩]
+
+/-- why `index_is_expansion_start` excludes the seeded change: with `debug=True` the expansion of
+the loop head starts at serialised position 10 (`set Q2 0`, the first instruction of the
+carbon–carbon circuit) and the back edge is retargeted to 10; its chunk contains 4 debug markers, so
+a pass that subtracted the marker count AFTER appending the chunk would record 6 — the second
+rotation of `h Q0` — and `idx[i] = tposS cs i` (`|pre| = index_changes[i]`) would be false there. -/
+theorem seeded_index_loop_head :
+    indexChanges (Gen.cfg true false) loopHeadCC = some [0, 1, 2, 3, 4, 5, 6, 8, 9, 10, 38, 41, 42] ∧
+    (transpile (Gen.cfg true false) loopHeadCC).toOption.map (fun o =>
+        ((serialise o)[10]?, (serialise o)[42]?, (serialise o)[10 - 4]?,
+         ((o.drop 10).take 32).filter isDebug |>.length)) =
+      some (some ⟨"core.SetInstruction", [.reg ⟨2, 2⟩, .imm 0]⟩,
+            some ⟨"core.BltInstruction", [.reg ⟨0, 0⟩, .reg ⟨0, 2⟩, .imm 10]⟩,
+            some ⟨"nv.RotYInstruction", [.reg ⟨2, 0⟩, .imm 8, .imm 4]⟩, 4) := by
+  decide +kernel
+
 /-- the output is the concatenation of the patched chunks, plus the padding exactly when some
 emitted branch targeted the original end -/
 theorem output_structure (cfg : Cfg) (S out : List Instr) (h : transpile cfg S = .ok out) :
